@@ -358,7 +358,7 @@ def type_sidecar(row):
     s += '@impl-items %s | impl WritableAVP for %s\n    open spec fn wv(&self) -> AvpV { self.av() }\n' % (mod, name)
     if layout:
         ml = min_len(layout)
-        s += '@fn %s::%s::try_read\n@ret res\n@safety C01\n' % (mod, name)
+        s += '@fn %s::%s::try_read\n@ret res\n@safety C01;C13\n' % (mod, name)
         if name in EXTERNAL_TRY_READ:
             s += '@external_body\n'
         s += '@ensures\n'
@@ -370,7 +370,7 @@ def type_sidecar(row):
               '        ==> res is Err && res->Err_0 == spec_payload_err(%d, old(reader).rem())->Some_0,\n' % (num, num, num))
         for it in layout:
             if it[0] in ('utf8', 'optutf8'):
-                s += '@closure 1\n@ret r: DecodeError\n@ensures r == DecodeError::InvalidUtf8(%d)\n' % num
+                s += '@closure ~DecodeError::InvalidUtf8\n@ret r: DecodeError\n@ensures r == DecodeError::InvalidUtf8(%d)\n' % num
     s += '@fn %s::<%s as QueryableAVP>::get_length\n@safety C07;C06\n' % (mod, name)
     s += '@fn %s::<%s as WritableAVP>::write\n@safety ;C06,C09,C03\n' % (mod, name)
     return s
